@@ -35,8 +35,34 @@ theorem inv12_ok_step (tl : StepTL s s' t) (h : Inv12 s) (u : Tid) : (s'.pc u).o
   · subst e; exact tl.wd.p9 (h.ok u)
   · rw [(tl.oth u e).1]; exact h.ok u
 
-theorem ok12_mtOld {p : PC} {old : Word} (hok : p.ok12) (h : p.mtOld = some old) : old.lw = false := by
-  cases p <;> simp [PC.mtOld] at h <;> subst h <;> exact hok
+/-- A thread between the acquiring CAS and the release store of mu_try_acquire_after_timeout_or_cancel holds the writer
+    bit. -/
+theorem wlock_of_mtOld (a : Invs s) {u : Tid} {old : Word} (h : (s.pc u).mtOld = some old) : s.word.wlock = true := by
+  have hni : s.pc u ≠ .idle := by intro e; rw [e] at h; cases h
+  have hsh : shareOf s u = some .W := by
+    rw [a.i1.share_eq hni]
+    cases hp : s.pc u <;> rw [hp] at h <;> simp [PC.mtOld] at h <;> rfl
+  have := (a.i1.lock.wown u).2 hsh
+  rw [a.i1.lock.wl, this]; rfl
+
+theorem inv12_mtlw_step (a : Invs s) (tl : StepTL s s' t) (h : Inv12 s) (u : Tid) (old : Word)
+    (ho : (s'.pc u).mtOld = some old) (hl : old.lw = true) : s'.word.lw = true := by
+  by_cases e : u = t
+  · subst e
+    exact tl.lw.p12 old ho hl (fun hs => h.mtlw u old hs hl)
+  · rw [(tl.oth u e).1] at ho
+    have hlw := h.mtlw u old ho hl
+    rcases tl.lw.p13 hlw with b | b | b
+    · exact b
+    · rw [wlock_of_mtOld a ho] at b; cases b
+    · exfalso
+      cases hm : (s.pc t).mtOld with
+      | none => exact b hm
+      | some o' =>
+        have h1 := spin_of_mtOld hm
+        have h2 := spin_of_mtOld ho
+        have := a.i3.others_no_spin h1 u e
+        rw [h2] at this; cases this
 
 theorem inv12_lw_step (tl : StepTL s s' t) (h : Inv12 s) (hlw' : s'.word.lw = true) :
     ∃ u c, (s'.pc u).sl? = some c ∧ c.lwl = true := by
@@ -49,7 +75,14 @@ theorem inv12_lw_step (tl : StepTL s s' t) (h : Inv12 s) (hlw' : s'.word.lw = tr
       · rw [d] at hlw'; cases hlw'
     · exact ⟨u, c, by rw [(tl.oth u e).1]; exact hu, hc⟩
   · exact ⟨t, c, b1, b2⟩
-  · have := ok12_mtOld (h.ok t) b1; rw [b2] at this; cases this
+  · -- a release store of mu_try_acquire_after_timeout_or_cancel that writes MU_LONG_WAIT: the bit was set all along
+    obtain ⟨u, c, hu, hc⟩ := h.lw (h.mtlw t old b1 b2)
+    by_cases e : u = t
+    · subst e
+      rcases tl.wd.p7 c hu hc with ⟨c', d1, d2⟩ | d
+      · exact ⟨u, c', d1, d2⟩
+      · rw [d] at hlw'; cases hlw'
+    · exact ⟨u, c, by rw [(tl.oth u e).1]; exact hu, hc⟩
 
 theorem inv12_rcn_step (a : Invs s) (tl : StepTL s s' t) (h : Inv12 s) (u : Tid) (k : Wid)
     (hu : (s'.pc u).lsRec = some k) : (s'.wr k).cond = none := by
